@@ -189,6 +189,14 @@ def lawJudge (op : String) (args : List Sexp) (impl : Sexp) : Bool × String :=
           evalRecipe a w' false && !(evalRecipe [a[w]?.getD []] w' false) && decBool i2
         | none => false) then (false, "law:dnf-does-not-imply-clause")
     else (decBool e3, "law:declared-only-input-keeps-equivalence")
+  | "law.subst.many", list [atom "L", nr, nv, vd, na, br, ba] =>
+    -- C08 with every input a key (a rotation of the inputs): simultaneous composition; every input is
+    -- mentioned by some replacement, so tables and diagrams keep exactly the same inputs
+    if !shapeOk kind (decNames nr) (decNat nv) (decBool vd) then (false, "law:shape")
+    else if kind != "E" && decNames nr != decNames na then (false, "law:substituted-inputs")
+    else if kind == "E" && !((decNames nr).all (decNames na).contains) then (false, "law:substituted-inputs")
+    else if !sameLen [decBits br, decBits ba] then (false, "law:samples")
+    else (decBits br == decBits ba, "law:value-at-composed-assignment")
   | "law.subst", list [atom "L", nr, nv, vd, na, key, other, br, ba] =>
     let k := decName key
     let expected := sortDedup (((decNames na).filter (· != k)) ++ [decName other])
